@@ -80,6 +80,9 @@ pub trait RangeNumber: FromStr + PartialOrd + Copy + MaybeToTokens {
 
     fn range_end_bound(self) -> Option<Bound<Self>>;
 
+    /// `false` for NaN and the infinities: they have no literal, so no code can be generated for them.
+    fn is_finite_number(self) -> bool;
+
     fn from_u64(v: u64) -> Option<Self>;
     fn from_i64(v: i64) -> Option<Self>;
     fn from_f64(v: f64) -> Option<Self>;
@@ -179,10 +182,13 @@ impl<T: RangeNumber> Range<T> {
 
     pub fn new(s: &str) -> Result<Self> {
         let parse = |s: &str| {
-            s.parse::<T>().map_err(|_| Error::RangeParse {
-                range: s.to_string(),
-                range_type: T::TYPE,
-            })
+            s.parse::<T>()
+                .ok()
+                .filter(|v| v.is_finite_number())
+                .ok_or_else(|| Error::RangeParse {
+                    range: s.to_string(),
+                    range_type: T::TYPE,
+                })
         };
         let s = s.trim();
         if matches!(s, "_" | "..") {
@@ -1105,6 +1111,10 @@ mod range_number_impl {
                         self.checked_sub(1).map(Bound::Included)
                     }
 
+                    fn is_finite_number(self) -> bool {
+                        true
+                    }
+
                     fn from_i64(v: i64) -> Option<Self> {
                         <$num_type>::try_from(v).ok()
                     }
@@ -1133,16 +1143,21 @@ mod range_number_impl {
                         Some(Bound::Excluded(self))
                     }
 
+                    fn is_finite_number(self) -> bool {
+                        self.is_finite()
+                    }
+
+                    // a number that is not finite in this type (1e39 as f32) is not a usable bound
                     fn from_i64(v: i64) -> Option<Self> {
-                        Some(v as $num_type)
+                        Some(v as $num_type).filter(|v| v.is_finite())
                     }
 
                     fn from_u64(v: u64) -> Option<Self> {
-                        Some(v as $num_type)
+                        Some(v as $num_type).filter(|v| v.is_finite())
                     }
 
                     fn from_f64(v: f64) -> Option<Self> {
-                        Some(v as $num_type)
+                        Some(v as $num_type).filter(|v| v.is_finite())
                     }
                 }
 
